@@ -55,7 +55,7 @@ def tree_strategy(nfut, depth=2):
     return st.tuples(st.sampled_from(["any", "all"]), st.lists(sub, min_size=2, max_size=3)).map(list)
 
 
-def steps_strategy(n, nfut, depth, emits, max_steps=5, futures=True, combinators=True, cancels=True):
+def steps_strategy(n, nfut, depth, emits, max_steps=5, futures=True, combinators=True, cancels=True, heavy=False):
     delay = st.tuples(st.just("delay"), st.sampled_from([0, 0, 1, 1, 2, 3])).map(list)
     delayfx = st.tuples(st.just("delayfx"), st.sampled_from([0, 0, 1, 2]), st.lists(emits, min_size=1, max_size=2)).map(list)
     alts = [delay, delay, delayfx]
@@ -65,19 +65,22 @@ def steps_strategy(n, nfut, depth, emits, max_steps=5, futures=True, combinators
         alts.append(st.tuples(st.just("resolve"), st.integers(0, nfut - 1), st.integers(0, 9)).map(list))
         if combinators and nfut >= 2:
             alts.append(st.tuples(st.just("waitc"), tree_strategy(nfut)).map(list))
+            if heavy:
+                alts.append(st.tuples(st.just("waitc"), tree_strategy(nfut)).map(list))
+                alts.append(st.tuples(st.just("wait"), st.integers(0, nfut - 1)).map(list))
     if cancels:
         alts.append(st.tuples(st.just("cancel"), st.integers(0, 2)).map(list))
     if depth > 0:
         alts.append(st.tuples(st.just("call"),
-                              steps_strategy(n, nfut, depth - 1, emits, 3, futures, combinators, cancels)).map(list))
+                              steps_strategy(n, nfut, depth - 1, emits, 3, futures, combinators, cancels, heavy)).map(list))
     return st.lists(st.one_of(*alts), max_size=max_steps)
 
 
 @st.composite
 def program_strategy(draw, tier="quick", procs=True, futures=True, combinators=True, cancels=True,
-                     hooks=True, max_entities=5, past=True, jitter=True):
+                     hooks=True, max_entities=5, past=True, jitter=True, heavy=False):
     n = draw(st.integers(1, max_entities))
-    nfut = draw(st.integers(0, 4)) if (futures and procs) else 0
+    nfut = draw(st.integers(2 if heavy else 0, 4)) if (futures and procs) else 0
     dts = (0, 0, 0, 1, 1, 2, 3, -1, -2) if past else (0, 0, 0, 1, 1, 2, 3)
     emits = emit_strategy(n, with_hooks=hooks, dts=dts, jitter=jitter, handles=3 if cancels else 0)
     imm = st.fixed_dictionaries({
@@ -88,7 +91,7 @@ def program_strategy(draw, tier="quick", procs=True, futures=True, combinators=T
         "cancel": st.lists(st.integers(0, 2), max_size=1 if cancels else 0),
     })
     if procs:
-        proc = st.tuples(steps_strategy(n, nfut, 2, emits, 5, futures, combinators, cancels),
+        proc = st.tuples(steps_strategy(n, nfut, 2, emits, 5, futures, combinators, cancels, heavy),
                          st.lists(emits, max_size=2)).map(lambda t: {"proc": t[0] + [["ret", t[1]]]})
         beh = st.one_of(imm, proc)
     else:
